@@ -64,6 +64,13 @@ class _BwVisitor(ast.NodeVisitor):
         self.guards.pop()
         for s in node.orelse:
             self.visit(s)
+        # an early exit (`if cond: return` / raise / continue / break) puts every LATER statement under `not cond`
+        if any(isinstance(x, (ast.Return, ast.Raise, ast.Continue, ast.Break)) for x in node.body):
+            self.guards.append([ast.parse('not (' + ast.unparse(node.test) + ')', mode='eval').body])
+
+    def visit_Return(self, node):
+        # an unconditional `return` before the accumulation statements: what follows is never executed
+        self.guards.append([ast.parse('False', mode='eval').body])
 
     def visit_For(self, node):
         # `for inp, grad in zip(inputs, grads)` : inp ranges over the list operand
